@@ -324,9 +324,22 @@ Variable show_f64 : N -> list N.       (* format!("{}", f64::from_bits(bits)) *)
 Record xls_env := {
   xe_sheets : list (list N);            (* fmla_sheet_names *)
   xe_names : list (list N);             (* defined names (name part only) *)
-  xe_xtis : list (N * N * N)            (* (iSupBook, itabFirst, itabLast) as raw u16 *)
+  xe_xtis : list (N * N * N);           (* (iSupBook, itabFirst, itabLast) as raw u16 *)
+  xe_base : option (N * N)              (* base: Option<(u32, u32)> — the cell using a shared formula
+                                           (row, column); None for a cell's own formula and for names *)
 }.
 Variable xenv : xls_env.
+
+(*  fn rel_ref(row: u16, col: u16, base: (u32, u32)) -> (u32, u16) {
+      let row = if col & 0x8000 != 0 { row.wrapping_add(base.0 as u16) } else { row };
+      let c = if col & 0x4000 != 0 { (col as u8).wrapping_add(base.1 as u8) as u16 } else { col & 0x3FFF };
+      (row as u32, col & 0xC000 | c) }
+    wrapping u16 / u8 additions written as sums modulo 65536 / 256; [col & 0xC000 | c] (c < 0x4000)
+    is the column field with the two flags of [col]: Col26.col_field *)
+Definition rel_ref (row col : N) (base : N * N) : N * N :=
+  let row' := if bit15 col then (row + fst base) mod 65536 else row in
+  let c := if bit14 col then (col mod 256 + snd base) mod 256 else N.land col 16383 in
+  (row', col_field c (bit15 col) (bit14 col)).
 
 (*  xtis.get(ixti).and_then(|xti| sheets.get(xti.itab_first as usize)).map_or("#REF", …)
     itab_first is an i16: a negative value becomes a huge usize, never a valid index *)
@@ -469,6 +482,32 @@ Definition xls_step (ptg : N) (rgce : list N) (s : pstate) : outcome (list N * p
       Ok (r, (length buf :: st, b2))
   | 0x2A | 0x4A | 0x6A => arm_push_text (lit "#REF!") 4 rgce s
   | 0x2B | 0x4B | 0x6B => arm_push_text (lit "#REF!") 8 rgce s
+  | 0x2C | 0x4C | 0x6C =>                                            (* PtgRefN *)
+      (* let base = base.ok_or(Unrecognized)?;
+         let (row, col) = rel_ref(read_u16(rgce), read_u16(&rgce[2..]), base); push_cell_ref(row, col) *)
+      match xe_base xenv with
+      | None => Err E_UNRECOGNIZED
+      | Some base =>
+          do rw <- u16_at rgce 0;
+          do cl <- u16_at rgce 2;
+          let rc := rel_ref rw cl base in
+          do b <- push_cell_ref (fst rc) (snd rc) buf;
+          do r <- drop 4 rgce;
+          Ok (r, (length buf :: st, b))
+      end
+  | 0x2D | 0x4D | 0x6D =>                                            (* PtgAreaN *)
+      match xe_base xenv with
+      | None => Err E_UNRECOGNIZED
+      | Some base =>
+          do r1 <- u16_at rgce 0; do c1 <- u16_at rgce 4;
+          let rc1 := rel_ref r1 c1 base in
+          do r2 <- u16_at rgce 2; do c2 <- u16_at rgce 6;
+          let rc2 := rel_ref r2 c2 base in
+          do b1 <- push_cell_ref (fst rc1) (snd rc1) buf;
+          do b2 <- push_cell_ref (fst rc2) (snd rc2) (b1 ++ [ch_colon]);
+          do r <- drop 8 rgce;
+          Ok (r, (length buf :: st, b2))
+      end
   | 0x39 | 0x59 => arm_push_text (lit "[PtgNameX]") 6 rgce s
   | _ => Err E_UNRECOGNIZED
   end.
@@ -478,11 +517,11 @@ Definition xls_expected (ptg : N) : nat :=
   match ptg with
   | 0x3a | 0x5a | 0x7a | 0x3c | 0x5c | 0x7c | 0x39 | 0x59 => 6%nat
   | 0x3b | 0x5b | 0x7b | 0x3d | 0x5d | 0x7d => 10%nat
-  | 0x01 | 0x23 | 0x43 | 0x63 | 0x24 | 0x44 | 0x64 | 0x2A | 0x4A | 0x6A => 4%nat
+  | 0x01 | 0x23 | 0x43 | 0x63 | 0x24 | 0x44 | 0x64 | 0x2A | 0x4A | 0x6A | 0x2C | 0x4C | 0x6C => 4%nat
   | 0x17 | 0x19 | 0x1C | 0x1D => 1%nat
   | 0x18 => 5%nat
   | 0x1E | 0x21 | 0x41 | 0x61 => 2%nat
-  | 0x1F | 0x25 | 0x45 | 0x65 | 0x2B | 0x4B | 0x6B => 8%nat
+  | 0x1F | 0x25 | 0x45 | 0x65 | 0x2B | 0x4B | 0x6B | 0x2D | 0x4D | 0x6D => 8%nat
   | 0x20 | 0x40 | 0x60 => 7%nat
   | 0x22 | 0x42 | 0x62 => 3%nat
   | _ => 0%nat
@@ -742,8 +781,14 @@ Inductive expr :=
 | EAttrSkip (etpg w : N) (a : expr)            (* a display-neutral PtgAttr* in front of a *)
 | EAttrPost (etpg w : N) (a : expr)            (* a display-neutral PtgAttr* behind a (PtgAttrGoto after a
                                                   branch of IF / CHOOSE, PtgAttrSpace before an operator) *)
-| EAttrChoose (offs : list N) (a : expr).      (* PtgAttrChoose (cOffset = |offs| - 1, then the jump
+| EAttrChoose (offs : list N) (a : expr)       (* PtgAttrChoose (cOffset = |offs| - 1, then the jump
                                                   table offs) in front of a *)
+(* references of a SHARED formula (PtgRefN / PtgAreaN, MS-XLS 2.5.198.84 / .28; RgceLocRel): a
+   relative component holds an OFFSET from the cell that uses the formula, as the two's-complement
+   field the format stores (rows: 16 bits; columns: the low 8 bits of the 14-bit field count, xls
+   sheets have 256 columns), an absolute component the row / column itself *)
+| ERefN (k : cls) (a : cref)
+| EAreaN (k : cls) (a b : cref).
 
 (* ---------- rendering (the A1 text) ---------- *)
 (* operator tokens of MS-XLS 2.5.198: PtgAdd 03 .. PtgConcat 08, PtgLt 09, PtgLe 0A, PtgEq 0B,
@@ -782,10 +827,25 @@ Fixpoint join_comma (l : list (list N)) : list N :=
   | x :: t => x ++ [ch_comma] ++ join_comma t
   end.
 
+(* SPEC: a reference of a shared formula, seen from the cell (br, bc) that uses it: relative
+   components are base + offset, wrapping around the sheet — rows modulo 65536, columns modulo 256
+   (MS-XLS RgceLocRel; the offset d is stored as d mod 2^16 resp. d mod 2^8, so this is
+   (base + d) mod 65536 / 256: [translate_signed_row/col] in Ptg_proofs.v); absolute components and
+   the two flags are unchanged.  Without a base (not a shared formula) there is nothing to translate. *)
+Definition translate (base : option (N * N)) (a : cref) : cref :=
+  match base with
+  | None => a
+  | Some (br, bc) =>
+      {| cr_row := if cr_row_rel a then (br + cr_row a) mod 65536 else cr_row a;
+         cr_col := if cr_col_rel a then (bc + cr_col a) mod 256 else cr_col a;
+         cr_row_rel := cr_row_rel a; cr_col_rel := cr_col_rel a |}
+  end.
+
 Section Render.
 Variable show_f64 : N -> list N.
 Variable sheet_of : N -> list N.               (* ixti -> sheet name *)
 Variable name_of : N -> list N.                (* 1-based name index -> name *)
+Variable ref_n : cref -> cref.                 (* a PtgRefN / PtgAreaN corner seen from the using cell *)
 
 Definition fname (iftab : N) : list N := match nthN FTAB_REF iftab with Some nm => nm | None => [] end.
 
@@ -823,6 +883,8 @@ Fixpoint render (e : expr) : list N :=
   | EAttrSkip _ _ a => render a
   | EAttrPost _ _ a => render a
   | EAttrChoose _ a => render a
+  | ERefN _ a => render_cref (ref_n a)
+  | EAreaN _ a b => render_cref (ref_n a) ++ [ch_colon] ++ render_cref (ref_n b)
   end.
 End Render.
 
@@ -842,9 +904,9 @@ Definition spec_sheet_xlsb (env : xlsb_env) (ixti : N) : list N :=
   match nthN (be_sheets env) ixti with Some sh => sh | None => [] end.
 
 Definition render_xls (show_f64 : N -> list N) (env : xls_env) : expr -> list N :=
-  render show_f64 (spec_sheet_xls env) (spec_name (xe_names env)).
+  render show_f64 (spec_sheet_xls env) (spec_name (xe_names env)) (translate (xe_base env)).
 Definition render_xlsb (show_f64 : N -> list N) (env : xlsb_env) : expr -> list N :=
-  render show_f64 (spec_sheet_xlsb env) (spec_name (be_names env)).
+  render show_f64 (spec_sheet_xlsb env) (spec_name (be_names env)) (translate None).
 
 (* ---------- encoders ---------- *)
 Definition unop_ptg (op : unop) : N := match op with UPlus => 0x12 | UMinus => 0x13 | UPercent => 0x14 end.
@@ -880,6 +942,9 @@ Fixpoint encode (e : expr) : list N :=
   | EAttrPost etpg w a => encode a ++ [0x19; etpg] ++ le 2 w
   | EAttrChoose offs a =>
       [0x19; 0x04] ++ le 2 (N.of_nat (length offs) - 1) ++ flat_map (le 2) offs ++ encode a
+  | ERefN k a => [cls_ptg 0x2C 0x4C 0x6C k] ++ le rowbytes (cr_row a) ++ le 2 (cfield a)
+  | EAreaN k a b => [cls_ptg 0x2D 0x4D 0x6D k] ++ le rowbytes (cr_row a) ++ le rowbytes (cr_row b)
+                      ++ le 2 (cfield a) ++ le 2 (cfield b)
   end.
 End Encode.
 
@@ -931,6 +996,7 @@ Variable rowlim : N.                            (* 2^16 for xls, 2^32 for xlsb *
 Variable wf_ixti : N -> bool.
 Variable nnames : nat.
 Variable wf_str : bool -> list N -> bool.
+Variable allow_n : bool.                        (* PtgRefN / PtgAreaN: only with a base cell (shared formula) *)
 
 Fixpoint wf (e : expr) : bool :=
   match e with
@@ -962,6 +1028,8 @@ Fixpoint wf (e : expr) : bool :=
   | EAttrChoose offs a =>
       (1 <=? N.of_nat (length offs)) && (N.of_nat (length offs) <=? 65536) &&
       forallb (fun o => o <? 65536) offs && wf a
+  | ERefN _ a => allow_n && wf_cref rowlim a
+  | EAreaN _ a b => allow_n && wf_cref rowlim a && wf_cref rowlim b
   end.
 End Wf.
 
@@ -972,9 +1040,10 @@ Definition wf_str_xlsb (_ : bool) (s : list N) : bool :=
   (N.of_nat (length (utf16_units s)) <? 65536) && forallb scalar s.
 
 Definition wf_xls (env : xls_env) : expr -> bool :=
-  wf 65536 (fun _ => true) (length (xe_names env)) wf_str_xls.
+  wf 65536 (fun _ => true) (length (xe_names env)) wf_str_xls
+     (match xe_base env with Some _ => true | None => false end).
 Definition wf_xlsb (env : xlsb_env) : expr -> bool :=
-  wf 4294967296 (fun ix => ix <? N.of_nat (length (be_sheets env))) (length (be_names env)) wf_str_xlsb.
+  wf 4294967296 (fun ix => ix <? N.of_nat (length (be_sheets env))) (length (be_names env)) wf_str_xlsb false.
 
 (* Known classes: none left.  K_STR_WIDE (F21) was repaired by commit a3d91ee and K_STR_QUOTE by
    6ef7f34; their witnesses are corpus cases of tools/props/c14.py that must satisfy the spec. *)
